@@ -418,3 +418,11 @@ func differentiated(P *Prog) (isDiff valPred, widthOf func(v ssa.Value) ssa.Valu
 	}
 	return
 }
+
+func constStringObj(o types.Object) (string, bool) {
+	c, ok := o.(*types.Const)
+	if !ok || c.Val().Kind() != constant.String {
+		return "", false
+	}
+	return constant.StringVal(c.Val()), true
+}
